@@ -846,8 +846,15 @@ hwloc_obj_attr_snprintf(char * __hwloc_restrict string, size_t size, hwloc_obj_t
 
 int hwloc_bitmap_singlify_per_core(hwloc_topology_t topology, hwloc_bitmap_t cpuset, unsigned which)
 {
+  int depth, topodepth = hwloc_topology_get_depth(topology);
+  /* Cores may be at several depths (asymmetric topologies, user-inserted Groups),
+   * by_type iterators return nothing in that case, walk every Core level.
+   */
+  for(depth = 0; depth < topodepth; depth++) {
   hwloc_obj_t core = NULL;
-  while ((core = hwloc_get_next_obj_covering_cpuset_by_type(topology, cpuset, HWLOC_OBJ_CORE, core)) != NULL) {
+  if (hwloc_get_depth_type(topology, depth) != HWLOC_OBJ_CORE)
+    continue;
+  while ((core = hwloc_get_next_obj_covering_cpuset_by_depth(topology, cpuset, depth, core)) != NULL) {
     /* this core has some PUs in the cpuset, find the index-th one */
     unsigned i = 0;
     int pu = -1;
@@ -868,6 +875,7 @@ int hwloc_bitmap_singlify_per_core(hwloc_topology_t topology, hwloc_bitmap_t cpu
 	i++;
       }
     } while (1);
+  }
   }
   return 0;
 }
